@@ -1,11 +1,12 @@
-(* What the serializer does when the event does NOT fit its buffer.
+(* What encodeRecord does when the event does NOT fit the buffer it is given (since fix 413c995 SerializeRecord
+   never gives it such a buffer: second half of this file).
 
    Every writer is followed through by lengths and positions only (contents do not matter here):
      - a writer made of byte stores ([put]) either has room and advances by its size, or panics;
      - a writer that ends in [copy] advances by min(size, room): it saturates at the end of the buffer;
      - from a saturated position every later byte store panics and every later copy copies nothing.
    Hence encodeRecord ends with  position = min(size of the event, len(buffer))  or panics, and
-   position == len(buffer) makes SerializeRecord return the empty stream: a non-empty stream is never
+   position == len(buffer) makes it return 0 (the empty stream): a non-empty stream is never
    anything but the complete, correct event. *)
 From SV Require Import Model.Common Model.Msgpack Model.Unescape Model.Serializer
      Spec.MsgpackSpec Spec.SerializerSpec Proofs.CommonFacts Proofs.MsgpackProofs Proofs.UnescapeProofs
@@ -566,19 +567,18 @@ Lemma overflow_lemma : forall schema cfg rec B ser buffer,
   chains_ok schema cfg ->
   (length schema <= length (r_fields rec))%nat ->
   new_serializer schema cfg B = Ok ser ->
-  length buffer = B ->
-  (B <= length (encode_spec schema cfg rec))%nat ->
-  match serialize_record_from ser rec buffer with
+  (length buffer <= length (encode_spec schema cfg rec))%nat ->
+  match serialize_on ser rec buffer with
   | Ok stream => stream = []
   | Panic _ => True
   | Err _ => False
   end.
 Proof.
-  intros schema cfg rec B ser buffer V L Hnew LB Hbig.
+  intros schema cfg rec B ser buffer V L Hnew Hbig.
   destruct (new_serializer_inv _ _ _ _ Hnew) as (Hm & Hk & Hek & Hloc & Hrw & Hb).
   pose proof V as Hver.
   pose proof (locate_all_length _ _ _ Hloc) as Hnloc.
-  unfold serialize_record_from, encode_record_on. rewrite Hm, Hk, Hek, Hnloc. rewrite map_length.
+  unfold serialize_on, encode_record_on. rewrite Hm, Hk, Hek, Hnloc. rewrite map_length.
   replace (length schema <=? length (r_fields rec))%nat with true by lia. cbn [obind].
   set (fields := firstn (length schema) (r_fields rec)) in *.
   assert (Hfl : length fields = length schema) by (subst fields; rewrite firstn_length; lia).
@@ -658,63 +658,109 @@ Proof.
     cbn [obind]. rewrite src_slice_zero. reflexivity.
 Qed.
 
-(* SerializeRecord is total (Ok or panic, the unescape loop never runs out of fuel); a panic happens only when the
-   event does not fit; and a stream that is emitted is empty or the complete event - never a truncated one *)
+(* encodeRecord on ANY buffer is total (Ok or panic, the unescape loop never runs out of fuel); a panic happens only
+   when the event does not fit; and a stream that is emitted is empty or the complete event - never a truncated one.
+   (Before fix 413c995 this was all that could be said of SerializeRecord; it still describes encodeRecord, i.e.
+   what would happen if maxEncodedLength were ever too small.) *)
+Theorem encode_record_never_garbage_lemma : forall schema cfg rec B ser buffer,
+  chains_ok schema cfg ->
+  (length schema <= length (r_fields rec))%nat ->
+  new_serializer schema cfg B = Ok ser ->
+  match serialize_on ser rec buffer with
+  | Ok stream => stream = [] \/ stream = encode_spec schema cfg rec
+  | Panic _ => (length buffer <= length (encode_spec schema cfg rec))%nat
+  | Err _ => False
+  end.
+Proof.
+  intros schema cfg rec B ser buffer V L Hnew.
+  destruct (Nat.lt_ge_cases (length (encode_spec schema cfg rec)) (length buffer)) as [Hfit|Hbig].
+  - rewrite (serialize_on_spec schema cfg rec B ser buffer V L Hnew Hfit). right. reflexivity.
+  - pose proof (overflow_lemma schema cfg rec B ser buffer V L Hnew Hbig) as O.
+    destruct (serialize_on ser rec buffer) as [stream| |]; [left; exact O | exact O | exact Hbig].
+Qed.
+
+(* two buffers of the same length given to encodeRecord yield the same non-empty streams *)
+Theorem encode_record_contents_irrelevant_lemma : forall schema cfg rec B ser buffer1 buffer2 stream,
+  chains_ok schema cfg ->
+  (length schema <= length (r_fields rec))%nat ->
+  new_serializer schema cfg B = Ok ser ->
+  length buffer1 = length buffer2 ->
+  stream <> [] ->
+  serialize_on ser rec buffer1 = Ok stream ->
+  serialize_on ser rec buffer2 = Ok stream.
+Proof.
+  intros schema cfg rec B ser buffer1 buffer2 stream V L Hnew L12 Hne H1.
+  destruct (Nat.lt_ge_cases (length (encode_spec schema cfg rec)) (length buffer1)) as [Hfit|Hbig].
+  - rewrite (serialize_on_spec schema cfg rec B ser buffer1 V L Hnew Hfit) in H1.
+    rewrite (serialize_on_spec schema cfg rec B ser buffer2 V L Hnew ltac:(lia)). exact H1.
+  - pose proof (overflow_lemma schema cfg rec B ser buffer1 V L Hnew Hbig) as O1.
+    rewrite H1 in O1. contradiction.
+Qed.
+
+(* SerializeRecord (after fix 413c995), for EVERY preallocated buffer - any length, any contents - and EVERY record:
+   never a panic, never out of fuel, never the empty stream, never anything but the complete event *)
 Theorem never_garbage_lemma : forall schema cfg rec B ser buffer,
   chains_ok schema cfg ->
   (length schema <= length (r_fields rec))%nat ->
   new_serializer schema cfg B = Ok ser ->
-  length buffer = B ->
   match serialize_record_from ser rec buffer with
-  | Ok stream => stream = [] \/ stream = encode_spec schema cfg rec
-  | Panic _ => (B <= length (encode_spec schema cfg rec))%nat
+  | Ok stream => stream = encode_spec schema cfg rec /\ stream <> []
+  | Panic _ => False
   | Err _ => False
   end.
 Proof.
-  intros schema cfg rec B ser buffer V L Hnew LB.
-  destruct (Nat.lt_ge_cases (length (encode_spec schema cfg rec)) B) as [Hfit|Hbig].
-  - rewrite (encode_buf_spec_from_lemma schema cfg rec B ser buffer V L Hnew LB Hfit). right. reflexivity.
-  - pose proof (overflow_lemma schema cfg rec B ser buffer V L Hnew LB Hbig) as O.
-    destruct (serialize_record_from ser rec buffer) as [stream| |]; [left; exact O | exact O | exact Hbig].
+  intros schema cfg rec B ser buffer V L Hnew.
+  rewrite (serialize_record_from_total schema cfg rec B ser buffer V L Hnew).
+  split; [reflexivity | unfold encode_spec; discriminate].
 Qed.
 
-(* The buffer is reused from record to record: what is emitted does not depend on what the previous records left
-   in it - two buffers of the same length emit the same non-empty streams.  (The correspondence run evaluates the
-   model on a zeroed buffer.) *)
-Theorem buffer_contents_irrelevant_lemma : forall schema cfg rec B ser buffer1 buffer2 stream,
+(* The preallocated buffer is reused from record to record: what is emitted depends neither on what the previous
+   records left in it nor on its length.  (The correspondence run evaluates the model on a zeroed buffer.) *)
+Theorem buffer_contents_irrelevant_lemma : forall schema cfg rec B ser buffer1 buffer2,
   chains_ok schema cfg ->
   (length schema <= length (r_fields rec))%nat ->
   new_serializer schema cfg B = Ok ser ->
-  length buffer1 = B -> length buffer2 = B ->
-  stream <> [] ->
-  serialize_record_from ser rec buffer1 = Ok stream ->
-  serialize_record_from ser rec buffer2 = Ok stream.
+  serialize_record_from ser rec buffer1 = serialize_record_from ser rec buffer2.
 Proof.
-  intros schema cfg rec B ser buffer1 buffer2 stream V L Hnew L1 L2 Hne H1.
-  destruct (Nat.lt_ge_cases (length (encode_spec schema cfg rec)) B) as [Hfit|Hbig].
-  - rewrite (encode_buf_spec_from_lemma schema cfg rec B ser buffer1 V L Hnew L1 Hfit) in H1.
-    rewrite (encode_buf_spec_from_lemma schema cfg rec B ser buffer2 V L Hnew L2 Hfit). exact H1.
-  - pose proof (overflow_lemma schema cfg rec B ser buffer1 V L Hnew L1 Hbig) as O1.
-    rewrite H1 in O1. contradiction.
+  intros schema cfg rec B ser buffer1 buffer2 V L Hnew.
+  rewrite (serialize_record_from_total schema cfg rec B ser buffer1 V L Hnew).
+  rewrite (serialize_record_from_total schema cfg rec B ser buffer2 V L Hnew). reflexivity.
 Qed.
 
-(* from VerifyConfig alone: the serializer exists and every event that fits decodes to the record *)
+(* from VerifyConfig alone: the serializer exists and every record is emitted as an event that decodes to it *)
 Theorem accepted_config_serializes_lemma : forall schema cfg B,
   verify_config schema cfg = true ->
   N.of_nat (length schema) < 65535 ->
   N.of_nat (length (c_env cfg)) < 65536 ->
-  N.of_nat B <= 4294967296 ->
   exists ser, new_serializer schema cfg B = Ok ser /\
     forall rec buffer,
-      (length schema <= length (r_fields rec))%nat -> length buffer = B ->
-      (length (encode_spec schema cfg rec) < B)%nat ->
+      (length schema <= length (r_fields rec))%nat ->
+      strings_small schema cfg rec ->
       exists stream,
         serialize_record_from ser rec buffer = Ok stream /\ stream <> [] /\
         decode_all stream = Some (event_tree schema cfg rec, []).
 Proof.
-  intros schema cfg B V Hns Hne HB. destruct (new_serializer_ok schema cfg B V) as [ser Hser].
-  exists ser. split; [exact Hser|]. intros rec buffer L Hbuf Hfit.
-  exact (decode_serialized_lemma schema cfg rec B ser buffer (verified_chain schema cfg V) L Hns Hne HB Hser Hbuf Hfit).
+  intros schema cfg B V Hns Hne. destruct (new_serializer_ok schema cfg B V) as [ser Hser].
+  exists ser. split; [exact Hser|]. intros rec buffer L Hsm.
+  exact (decode_serialized_lemma schema cfg rec B ser buffer (verified_chain schema cfg V) L Hns Hne Hsm Hser).
+Qed.
+
+(* a test on literals of the one-off buffer: the package's test schema and record (Proofs/SerializerProofs.v) with
+   InputLogMaxRecordBytes = 8, i.e. a 16-byte preallocated buffer.  maxEncodedLength is 95, the event 76 bytes;
+   encodeRecord on the preallocated buffer panics (SerializeRecord before the fix), SerializeRecord emits the
+   complete event, which decodes to the record. *)
+Lemma example_oversize_lemma :
+  exists ser, new_serializer ex_schema ex_cfg 16 = Ok ser /\
+    max_encoded_length ser ex_rec = Ok 95%nat /\
+    length (encode_spec ex_schema ex_cfg ex_rec) = 76%nat /\
+    (exists site, serialize_on ser ex_rec (repeat 0 16) = Panic site) /\
+    serialize_record ser ex_rec = Ok (encode_spec ex_schema ex_cfg ex_rec) /\
+    decode_all (encode_spec ex_schema ex_cfg ex_rec) = Some (event_tree ex_schema ex_cfg ex_rec, []).
+Proof.
+  destruct (new_serializer ex_schema ex_cfg 16) as [ser| |] eqn:E; try (vm_compute in E; discriminate).
+  exists ser. split; [reflexivity|]. vm_compute in E. inversion E; subst.
+  split; [vm_compute; reflexivity|]. split; [vm_compute; reflexivity|].
+  split; [eexists; vm_compute; reflexivity|]. split; vm_compute; reflexivity.
 Qed.
 
 (* a test on literals at the fixmap limit: 15 schema fields "a".."o", no environment field, every field visible:
